@@ -133,7 +133,12 @@ class PipelineComponent(BaseModel):
                     if isinstance(comp, Component):
                         config = comp.dump_config()
             case ComponentConstructorNode(_name, ctype, config):
-                config = TypeAdapter[Any](ctype.config_class()).dump_python(config, mode="json")
+                cfg_cls = ctype.config_class()
+                if cfg_cls:
+                    config = TypeAdapter[Any](cfg_cls).dump_python(config, mode="json")
+                else:
+                    # no configuration class: same form as Component.dump_config()
+                    config = {}
             case _:
                 raise TypeError("unexpected node type")
 
